@@ -7,7 +7,7 @@
    ConvexPolygon is checked per instance (every consecutive turn positive about the normal). *)
 From Coq Require Import Reals QArith String List Bool.
 Require Import Cox.Num.Ops Cox.Num.Transfer Cox.Geo.Vec Cox.Model.Simple Cox.Gen.Effects Cox.Model.Setters
-  Cox.Thm.SimpleThm Cox.Thm.SimpleTransfer Cox.Thm.SegMeet.
+  Cox.Thm.SimpleThm Cox.Thm.SimpleTransfer Cox.Thm.SegMeet Cox.Thm.SimpleSpec.
 Import ListNotations.
 
 (* THE ORACLE IS THE DEFINITION.  simple_bf requires, for every pair of edges of the cycle: non-adjacent edges must not
@@ -22,6 +22,17 @@ Theorem C15_fold_back_is_overlap :
   forall a b c : vec2 R, fold_back Rops a b c = true <-> exists p, ~ same_pt p b /\ on_seg a b p /\ on_seg b c p.
 Proof. exact fold_back_spec. Qed.
 Print Assumptions C15_fold_back_is_overlap.
+
+(* ... and so the whole oracle: a cycle passes simple_bf exactly when it has at least three vertices and, for every pair of edges
+   i < j, adjacent edges do not overlap beyond their common vertex and non-adjacent edges have no common point - the definition
+   of a simple closed polygon, for cycles of ANY length *)
+Theorem C15_simple_bf_is_the_definition :
+  forall V : list (vec2 R),
+    simple_bf Rops V = true <->
+    (3 <= length V /\
+     forall i j e1 e2, i < j -> nth_error (cpairs V) i = Some e1 -> nth_error (cpairs V) j = Some e2 -> pair_ok (length V) i j e1 e2).
+Proof. exact simple_bf_spec. Qed.
+Print Assumptions C15_simple_bf_is_the_definition.
 
 (* soundness of the "clearly invalid" class: a proper crossing is a genuine common point of the
    two open edges, so the cycle is not simple *)
